@@ -24,6 +24,8 @@ type lstmt struct {
 	pos         string
 	num         int64
 	qkind, qarg int
+	using       int  // OPEN: rendered as `USING <using>` when hasUsing
+	hasUsing    bool
 	// filled by the simulation
 	rows    []string // OPEN: the result of the query of the cursor the name resolved to
 	rowsSet bool
@@ -51,6 +53,7 @@ type sim struct {
 	h      *hist
 	blocks []map[string]*cursor // innermost first; the last one is the top-level block
 	trace  []string
+	evals  int             // accepted OPENs of cursors whose query adds 1 to @cnt
 	after  []string        // what the header fetch did after the body touched the iterated cursor
 	focus  string          // key of the cursor the loop iterates
 	events map[string]bool // life-cycle statements on that key executed by the body since the last header fetch
@@ -125,7 +128,25 @@ func (s *sim) stmt(st *lstmt) string {
 		if c.open {
 			return "E11004"
 		}
-		rows := evalQuery(c.qkind, c.qarg, s.h.t)
+		if gone, _ := s.h.sourceGone(c); gone {
+			s.bad = true // the evaluation error of a disposed source is a top-level matter (c16.openfail)
+			return "E?"
+		}
+		arg := c.qarg
+		if c.qkind == qStmt1 {
+			if !st.hasUsing {
+				s.bad = true // "replace value is not specified": not a cursor matter
+				return "E?"
+			}
+			arg = st.using
+		}
+		rows := evalQuery(c.qkind, arg, s.h.t)
+		if c.qkind == qStmt1 {
+			c.qarg = arg
+		}
+		if c.qkind == qCount {
+			s.evals++
+		}
 		if st.rowsSet && strings.Join(rows, " ") != strings.Join(st.rows, " ") {
 			s.bad = true
 		}
@@ -252,6 +273,7 @@ func (h *hist) genStmt(focus string) *lstmt {
 		st.kind = "close"
 	case w < 46:
 		st.kind = "open"
+		st.hasUsing, st.using = g.Intn(3) > 0, g.Intn(int(h.nextID)+3)-1
 	case w < 60:
 		st.kind = "declare"
 		st.qkind, st.qarg = g.Intn(nQueries), g.Intn(len(h.t)+3)
@@ -328,6 +350,9 @@ func (st *lstmt) sql(g *hc.Gen) string {
 	case "dispose":
 		return fmt.Sprintf("DISPOSE CURSOR %s;", st.name) + logOK
 	case "open":
+		if st.hasUsing {
+			return fmt.Sprintf("OPEN %s USING %d;", st.name, st.using) + logOK
+		}
 		return fmt.Sprintf("OPEN %s;", st.name) + logOK
 	case "close":
 		return fmt.Sprintf("CLOSE %s;", st.name) + logOK
@@ -459,7 +484,7 @@ func (h *hist) stepLoop(fixed []*litem, fixedName string, fixedPre []*lstmt, fix
 			if g.Intn(5) > 0 {
 				pre = append(pre, &lstmt{kind: "declare", name: name, qkind: g.Intn(nQueries), qarg: g.Intn(len(h.t) + 3)})
 				if g.Intn(6) > 0 {
-					pre = append(pre, &lstmt{kind: "open", name: name})
+					pre = append(pre, &lstmt{kind: "open", name: name, hasUsing: true, using: g.Intn(int(h.nextID)+3) - 1})
 				}
 			}
 			for j, m := 0, g.Intn(3); j < m; j++ {
@@ -539,6 +564,7 @@ func (h *hist) stepLoop(fixed []*litem, fixedName string, fixedPre []*lstmt, fix
 		loopSQL = fmt.Sprintf("IF TRUE THEN %s %s %s END IF;", stmtsSQL(g, pre), loopSQL, stmtsSQL(g, post))
 	}
 	sql := strings.Join(prelude, " ") + " " + loopSQL
+	h.cntBefore = h.cnt()
 	err := h.exec(strings.TrimSpace(sql))
 	got := h.readTrace()
 	if err != nil {
@@ -591,6 +617,7 @@ func (h *hist) stepBlock() bool {
 	} else {
 		sql = fmt.Sprintf("IF TRUE THEN %s END IF;", stmtsSQL(g, l))
 	}
+	h.cntBefore = h.cnt()
 	err := h.exec(sql)
 	got := h.readTrace()
 	if err != nil {
@@ -659,6 +686,13 @@ func (h *hist) finishProgram(kind string, s *sim, got []string, name string, bod
 			}
 		}
 		h.law(ln, map[string]interface{}{"expected_trace": strings.Join(want, " | "), "got_trace": strings.Join(got, " | "), "first_difference_at": d})
+		h.aborted = true
+		return
+	}
+	// every accepted OPEN of a side-effect query evaluated it once, refused ones not at all
+	if after, want := h.cnt(), addTok(h.cntBefore, s.evals); after != want {
+		h.law("open_evaluates_once", map[string]interface{}{"program": kind, "cnt_before": h.cntBefore, "cnt_after": after, "expected_cnt_after": want,
+			"trace": strings.Join(got, " | ")})
 		h.aborted = true
 		return
 	}
